@@ -345,6 +345,8 @@ def run(chk):
     rule_r3(chk)
     rule_r4(chk)
     rule_r5(chk)
+    from .. import variants
+    variants.apply(chk, "C18-R6", [("irispie.red_vars._simulators", "_simulate"), ("irispie.red_vars._estimators", "Inlay.estimate")])
     chk.assumptions = [
         "numerical least squares (conditioning, solve) and companion-form moments (mean, eigenvalues, Lyapunov) are not decided",
         "parameters defaulting to None are not assumed None; only locals assigned None on a path",
